@@ -394,3 +394,22 @@ def tlc_parallel(ctx, jobs):
         if e is not None:
             raise e
     return out
+
+
+def binding_selftest(ctx, binary, adapter, ok_cases, corrupt):
+    """Demonstrate that the expectation carried by a case is really compared with what the code does: the same
+    passing cases with a corrupted expectation must all be rejected."""
+    st = []
+    for i, c in enumerate(ok_cases[:40]):
+        d = {k: v for k, v in c.items() if k not in ("ignore", "pred", "back")}
+        d.update(id=i, expect=corrupt(copy.deepcopy(c["t"])))
+        if "ws" in d:
+            d["ws"] = []
+        st.append(d)
+    if not st:
+        raise vlib.Inconclusive("binding self-test: no passing case to corrupt")
+    res = ctx.run_cases(binary, adapter, st, name=adapter + "-selftest")
+    accepted = [r for r in res if r.get("ok") or r.get("key") != "selftest-expectation"]
+    if accepted:
+        raise vlib.Inconclusive("binding self-test: %d corrupted expectations were not rejected: %s" % (len(accepted), accepted[0]))
+    ctx.extra_cov["binding_selftest_corrupted_expectations_rejected"] = len(res)
